@@ -391,7 +391,11 @@ func (e *engine) Step(ws []string, o *Out) string {
 		pk := packet{digest: true, src: g.id, srcAddr: g.addr, dst: dst, b: b}
 		e.pool = append(e.pool, pk)
 		return e.finish(g, ws, o, false, []packet{pk}, false)
-	case "deliver":
+	case "deliver", "deliverw":
+		// deliverw <i> cut= p= dcut= <k> <v>: like deliver, but the node writes k=v locally (and its
+		// state is read, as the status API does) AFTER the replies were computed and BEFORE they are
+		// encoded - the handlers encode outside the state mutex, so what Delta()/Digest() returned
+		// must be a snapshot (seed C02d: a delta aliasing a cache that the write invalidates)
 		i := Atoi(ws[1])
 		if i < 0 || i >= len(e.pool) {
 			return "err no-packet"
@@ -417,10 +421,23 @@ func (e *engine) Step(ws []string, o *Out) string {
 			g.st.ApplyDigest(d)
 			e.oracleDigest(g, d, known, o)
 			delta := g.st.Delta(d, false)
+			var sel pg.VDigest
+			if h.Request {
+				sel = selectIdx(p, g.sortedDigest())
+			}
+			if ws[0] == "deliverw" {
+				before := g.st.LocalNode()
+				g.st.UpsertLocal(Unhx(ws[5]), Unhx(ws[6]))
+				_ = g.st.LocalNode()
+				_ = g.st.Nodes()
+				_ = g.st.Delta(d, true)
+				e.oracleLocal(g, []string{"upsert", ws[1], ws[5], ws[6]}, before, o)
+				own = showNode(g.st.LocalNode())
+				o.Count("deliverw")
+			}
 			b := encodeDeltaCut(pg.VDeltaHeader{NodeID: g.id, Addr: g.addr}, delta, cut, o)
 			sent = append(sent, packet{src: g.id, srcAddr: g.addr, dst: h.Addr, b: b})
 			if h.Request {
-				sel := selectIdx(p, g.sortedDigest())
 				b := encodeDigestCut(pg.VDigestHeader{NodeID: g.id, Addr: g.addr, Request: false}, sel, dcut, o)
 				sent = append(sent, packet{digest: true, src: g.id, srcAddr: g.addr, dst: h.Addr, b: b})
 			}
@@ -446,7 +463,7 @@ func (e *engine) Step(ws []string, o *Out) string {
 		if showNode(g.st.LocalNode()) != own {
 			o.Fail("C02", "own-state-changed-by-message", "node="+Hx(g.id))
 		}
-		return e.finish(g, ws, o, false, sent, false)
+		return e.finish(g, ws, o, false, sent, ws[0] == "deliverw")
 	case "delivermax":
 		// like `deliver` of a digest packet, but the reply is encoded with a REAL byte limit;
 		// `items` is the number of whole items the generator observed (the model's cut)
@@ -1113,7 +1130,12 @@ func (e *engine) Gen(r *rand.Rand, n int, tier string, w *bufio.Writer) {
 					}
 					k = len(dn.st.Nodes()) + 1
 				}
-				emit("deliver %d cut=%d p=%s dcut=%d", pi, cut(), perm(k), 1000-r.Intn(2)*r.Intn(1000))
+				if sim.pool[pi].digest && dn != nil && r.Intn(4) == 0 {
+					// the receiving node writes locally between computing and encoding its replies
+					emit("deliverw %d cut=%d p=%s dcut=%d %s %s", pi, cut(), perm(k), 1000-r.Intn(2)*r.Intn(1000), Hx(Pick(r, keys)), Hx(fmt.Sprintf("w%d", r.Intn(4))))
+				} else {
+					emit("deliver %d cut=%d p=%s dcut=%d", pi, cut(), perm(k), 1000-r.Intn(2)*r.Intn(1000))
+				}
 			case x < 93:
 				m := Pick(r, al)
 				if m == id {
